@@ -459,3 +459,136 @@ Fixpoint env_of (l : list (N * inp)) (n : N) : inp :=
   | [] => INone
   | (m, i) :: r => if N.eqb m n then i else env_of r n
   end.
+
+(* ================================================================== reference semantics
+   What "the arithmetic value of the expression" means; the theorems relate the compiled
+   post-fix programs to these. *)
+
+(* --- on values, for any rounding function: the four arithmetic operators by name *)
+Definition vapp (rnd : Q -> val) (o : bop) : val -> val -> val :=
+  match o with Add => vadd rnd | Sub => vsub rnd | Mul => vmul rnd | Div => vdiv rnd end.
+Definition happ (rnd : Q -> val) (o : hop) : val -> val -> val :=
+  match o with HB b => vapp rnd b | HMax => vmax | HMin => vmin end.
+Definition hunapp (u : hun) : val -> val := match u with UCons => vcons | UProd => vprod end.
+
+(* the value of a builder tree: every node applied to the values of its operands *)
+Fixpoint hval (rnd : Q -> val) (fv : N -> val) (b : hb) : val :=
+  match b with
+  | HStart n => fv n
+  | HPushE b o n => happ rnd o (hval rnd fv b) (fv n)
+  | HPushC b o c => happ rnd o (hval rnd fv b) c
+  | HPushB b o b' => happ rnd o (hval rnd fv b) (hval rnd fv b')
+  | HUn b u => hunapp u (hval rnd fv b)
+  end.
+
+Fixpoint hb_engines (b : hb) : list N :=
+  match b with
+  | HStart n => [n]
+  | HPushE b _ n => hb_engines b ++ [n]
+  | HPushC b _ _ => hb_engines b
+  | HPushB b _ b' => hb_engines b ++ hb_engines b'
+  | HUn b _ => hb_engines b
+  end.
+
+(* --- exact real (rational) arithmetic with "undefined": None = a needed input is missing or a
+   divisor is zero.  Nothing here relies on Coq's total division (x / 0 = 0). *)
+Definition D := option Q.
+
+Definition dapp (o : bop) (a b : D) : D :=
+  match a, b with
+  | Some x, Some y =>
+      match o with
+      | Add => Some (Qplus x y)
+      | Sub => Some (Qminus x y)
+      | Mul => Some (Qmult x y)
+      | Div => if Qeq_bool y 0 then None else Some (Qdiv x y)
+      end
+  | _, _ => None
+  end.
+
+Definition deq (a b : D) : Prop :=
+  match a, b with
+  | Some x, Some y => Qeq x y
+  | None, None => True
+  | _, _ => False
+  end.
+
+Definition inj (d : D) : val := match d with Some q => Num q | None => NaN end.
+
+(* ordinary evaluation of the AST: parentheses group, each node applies its operator to the
+   values of its two operands (left-associativity is in the tree the printer [pp] prints) *)
+Fixpoint evalD (fd : N -> D) (e : expr) : D :=
+  match e with
+  | EVar n => fd n
+  | EConst q => Some q
+  | EBin o a b => dapp o (evalD fd a) (evalD fd b)
+  | EParen e' => evalD fd e'
+  end.
+
+(* ordinary precedence, left to right, on a parenthesis-free segment:
+   state  S pm T  = "sum so far" pm "current term";  * and / extend the term, + and - close it *)
+Fixpoint std (S : D) (pm : bop) (T : D) (rest : list (bop * D)) : D :=
+  match rest with
+  | [] => dapp pm S T
+  | (o, x) :: r =>
+      match o with
+      | Mul | Div => std S pm (dapp o T x) r
+      | Add | Sub => std (dapp pm S T) o x r
+      end
+  end.
+
+Fixpoint gval (fd : N -> D) (g : gexpr) : D :=
+  match g with
+  | GVar n => fd n
+  | GConst q => Some q
+  | GSeg f r => std (Some 0%Q) Add (gval fd f) (map (fun p => (fst p, gval fd (snd p))) r)
+  end.
+
+(* what a stream contributes in a round, as a D: missing = undefined, or 0 when so configured *)
+Definition fetch_D (nz : bool) (i : inp) : D :=
+  match i with
+  | IVal q => Some q
+  | _ => if nz then Some 0%Q else None
+  end.
+
+Definition emit_of (d : D) : outcome := Emit d.
+
+Definition outcome_equiv (a b : outcome) : Prop :=
+  match a, b with
+  | Emit x, Emit y => deq x y
+  | Dropped, Dropped => True
+  | _, _ => False
+  end.
+
+(* builder trees in exact arithmetic (finite constants) *)
+Definition dmax (a b : D) : D :=
+  match a, b with Some x, Some y => Some (if Qlt_bool x y then y else x) | _, _ => None end.
+Definition dmin (a b : D) : D :=
+  match a, b with Some x, Some y => Some (if Qlt_bool y x then y else x) | _, _ => None end.
+Definition dhapp (o : hop) : D -> D -> D :=
+  match o with HB b => dapp b | HMax => dmax | HMin => dmin end.
+Definition dhun (u : hun) (a : D) : D :=
+  match a, u with
+  | Some x, UCons => Some (if Qlt_bool x 0 then 0%Q else x)
+  | Some x, UProd => Some (if Qlt_bool (Qopp x) 0 then 0%Q else Qopp x)
+  | None, _ => None
+  end.
+Definition D_of_val (v : val) : D := match v with Num q => Some q | _ => None end.
+
+Fixpoint hvalD (fd : N -> D) (b : hb) : D :=
+  match b with
+  | HStart n => fd n
+  | HPushE b o n => dhapp o (hvalD fd b) (fd n)
+  | HPushC b o c => dhapp o (hvalD fd b) (D_of_val c)
+  | HPushB b o b' => dhapp o (hvalD fd b) (hvalD fd b')
+  | HUn b u => dhun u (hvalD fd b)
+  end.
+
+Fixpoint hb_consts_finite (b : hb) : bool :=
+  match b with
+  | HStart _ => true
+  | HPushE b _ _ => hb_consts_finite b
+  | HPushC b _ c => hb_consts_finite b && match c with Num _ => true | _ => false end
+  | HPushB b _ b' => hb_consts_finite b && hb_consts_finite b'
+  | HUn b _ => hb_consts_finite b
+  end.
